@@ -47,8 +47,9 @@ META = {
             "+ dsched; the driver's operator new/delete replacement and private-member access (-fno-access-control).",
 }
 
-MON = ["winner", "same", "visible", "ctor", "noconsume", "fullok", "nodrop", "nodup", "size", "dtor", "leak"]
-WHAT = {"winner": "not exactly one insertion of a key reported success",
+MON = ["phantom", "winner", "same", "visible", "ctor", "noconsume", "fullok", "nodrop", "nodup", "size", "dtor", "leak"]
+WHAT = {"phantom": "a lookup returned an element of a key no insertion of which had begun (stale / foreign element)",
+        "winner": "not exactly one insertion of a key reported success",
         "same": "operations on one key returned different / not fully constructed / foreign elements",
         "visible": "an operation that started after an insertion of the key had returned missed the key",
         "ctor": "a slot was constructed more than once, read before it was constructed, or is unreachable",
@@ -88,6 +89,16 @@ def gen_program(rng, small):
             hashes[k] = hval(rng.below(128), base0 + real * rng.below(3))
         else:
             hashes[k] = hval(rng.below(128), rng.below(4 * real))
+    # one more class of initial states: a container that was used and clear()ed (keys 200.. homed in the last buckets so
+    # that their windows wrapped through the mirror bytes), over trivially destructible element types as well
+    setup = []
+    triv = rng.chance(1, 3)
+    if rng.chance(1, 4) and not (mode == "X" and cap == "D"):
+        nset = rng.choice([4, 9, real - 1, real - 3 if mode == "X" else real + 5])
+        setup = list(range(200, 200 + nset))
+        for k in setup:
+            hashes[k] = hval((k * 11) % 128, real - 1 - (k % 5) + real * (k % 2))
+        keys = keys + [200 + rng.below(nset), 200 + rng.below(nset)]
     # prefill: bring the first table(s) to the edge of full so that the client threads race for the last slots / growth
     choices = [0, 0, real - 2, real - 1, real - 1, real]
     if mode != "X" and cap != "D":
@@ -126,7 +137,8 @@ def gen_program(rng, small):
         threads.append(ops)
     if not any(o[0] not in "FC" for th in threads for o in th):
         threads[0][0] = "E%d" % keys[0]
-    return {"mode": mode, "cap": cap, "hashes": hashes, "prefill": pre, "threads": threads}
+    return {"mode": mode.lower() if triv else mode, "cap": cap, "hashes": hashes, "prefill": pre, "threads": threads,
+            "setup": setup}
 
 
 DIRECTED = [
@@ -189,11 +201,56 @@ DEEP_CONC = [
 ]
 
 
-def fields(p):
+def reuse(mode, cap, nset, threads, nsched=6):
+    """a container that was used before: `nset` keys (200..) whose home buckets are the last buckets of the table (their
+    probe windows wrap through the mirror bytes into slots 0..14) are emplaced and clear()ed before the program runs;
+    the client keys include them.  Lower-case mode = trivially destructible element type."""
+    real = 32 if cap == "D" else int(cap)
+    hs = {}
+    for k in list(range(200, 200 + nset)) + [1, 2]:
+        hs[k] = hval((k * 11) % 128, real - 1 - (k % 5) + real * (k % 2))
+    return {"mode": mode, "cap": str(cap), "hashes": hs, "prefill": [], "setup": list(range(200, 200 + nset)),
+            "threads": threads, "nsched": nsched}
+
+
+REUSE = [
+    reuse("x", 16, 8, [["E201", "F201"], ["E201", "F203"]]),
+    reuse("s", 16, 10, [["E204", "F204"], ["I204"], ["C207"]]),
+    reuse("m", 16, 9, [["B202", "F202"], ["T202", "F206"]]),
+    reuse("S", 16, 10, [["E204", "F204"], ["I204", "F1"]]),
+    reuse("M", 32, 12, [["B202", "F202"], ["T202"], ["E206"]]),
+    reuse("s", 32, 14, [["E209", "F209"], ["E1", "C211"]]),
+    reuse("s", 16, 20, [["E204", "F204"], ["E205", "F1"]]),        # chained before clear(): rebuilt as one table
+    reuse("m", "D", 5, [["E201", "F201"], ["B201", "F203"]]),
+    reuse("x", 64, 40, [["E205", "F205"], ["E207", "F230"], ["C239"]]),
+]
+
+
+def model_cap(p):
+    """capacity of the fresh table the model starts from (clear() of a chained set rebuilds it as one table)"""
+    setup = p.get("setup") or []
+    if not setup or p["mode"].upper() == "X":
+        return p["cap"]
+    n = len(set(setup))
+    if p["cap"] == "D" or n > int(p["cap"]):
+        b = 16
+        while b < n:
+            b *= 2
+        return str(b)
+    return p["cap"]
+
+
+def fields(p, model=False):
     hs = ",".join("%d:%d" % (k, v) for k, v in sorted((int(k), v) for k, v in p["hashes"].items())) or "-"
     pre = ",".join(str(k) for k in p["prefill"]) or "-"
     prog = "|".join(",".join(th) for th in p["threads"])
+    if model:
+        return p["mode"].upper(), model_cap(p), hs, pre, prog
     return p["mode"], p["cap"], hs, pre, prog
+
+
+def setup_field(p):
+    return ",".join(str(k) for k in (p.get("setup") or [])) or "-"
 
 
 def main(argv):
@@ -236,6 +293,8 @@ def main(argv):
             progs.append(("d%d" % i, p, True))
         for i, p in enumerate(SLOW):
             progs.append(("w%d" % i, p, True))
+        for i, p in enumerate(REUSE):
+            progs.append(("u%d" % i, p, True))
         for i, p in enumerate(DEEP_SEQ):
             progs.append(("q%d" % i, p, True))
         for i, p in enumerate(DEEP_CONC):
@@ -248,7 +307,7 @@ def main(argv):
             while cnt < n and tries < 20 * n:
                 tries += 1
                 p = gen_program(rng, small)
-                key = fields(p)
+                key = fields(p) + (setup_field(p),)
                 if key in seen:
                     continue
                 seen.add(key)
@@ -263,7 +322,7 @@ def main(argv):
         f = fields(p)
         for si, (seed, strat, choices) in enumerate(scheds[:p.get("nsched", len(scheds))]):
             cid = "%s.%d" % (pid, si)
-            lines.append("%s %d %d %s %s %s %s %s %s" % ((cid, seed, strat) + f + (choices,)))
+            lines.append("%s %d %d %s %s %s %s %s %s %s" % ((cid, seed, strat) + f + (choices, setup_field(p))))
             meta[cid] = (pid, p, small, seed, strat, choices)
     chk.log("%d programs, %d cases" % (len(progs), len(lines)))
     # phase 1: three schedules of every program; the remaining schedules only run when phase 1 is clean (a broken
@@ -280,7 +339,7 @@ def main(argv):
     model_sets = {}
     states = trans = 0
     if model:
-        mlines = ["%s %s %s %s %s %s" % ((pid,) + fields(p)) for pid, p, small in progs if small]
+        mlines = ["%s %s %s %s %s %s" % ((pid,) + fields(p, model=True)) for pid, p, small in progs if small]
         mo = chk.run_cases(model, mlines, timeout=1800)
         for pid, l in mo.items():
             if "outcomes=" not in l:
@@ -337,7 +396,9 @@ def main(argv):
                        "sequential prefill, client program, schedule seed, strategy); keys collide completely / share the "
                        "7-bit tag / share the base group / are random; base groups are aimed at the ends of the table "
                        "(wrap-around through the mirror bytes); prefill brings the table(s) to 0, full-2, full-1, full or "
-                       "two-tables-full so that the threads race for the last slots, plus deep-probe programs (64 / 128 buckets, 32-52 keys on one home bucket incl. the table end: keys "
+                       "two-tables-full so that the threads race for the last slots, plus re-used containers (keys homed in the last buckets emplaced and clear()ed before the program, incl. "
+                       "a chained set rebuilt by clear(), over non-trivial AND trivially destructible element types; the model "
+                       "starts from a fresh table), plus deep-probe programs (64 / 128 buckets, 32-52 keys on one home bucket incl. the table end: keys "
                        "displaced into the 3rd / 4th group of the triangular probe sequence, looked up during and after; the "
                        "single-thread ones are also run through the extracted model), plus slow-constructor programs (the winner blocks for "
                        "15 ms of virtual time between its CAS and its tag store while others insert the same / colliding keys), fail on a full fixed table or race on "
